@@ -70,7 +70,7 @@ func r14_2(c *Ctx) {
 		// value unset: every path to a return that may carry an error passes an unsetting store, and no
 		// setting store lies between the last unsetting store and that return.
 		var unsetting, setting []*ssa.Store
-		eachInstr(fn, func(in ssa.Instruction) {
+		eachInstrDeep(fn, func(in ssa.Instruction) {
 			st, ok := in.(*ssa.Store)
 			if !ok || rootAddr(st.Addr) != ssa.Value(recv) {
 				return
@@ -321,13 +321,20 @@ func r14_4(c *Ctx) {
 		good := false
 		for _, ret := range returnsOf(isl) {
 			b, ok := ret.Results[0].(*ssa.BinOp)
-			if !ok || b.Op != token.EQL {
+			if !ok {
 				continue
 			}
-			if call, ok := extractOf(b.X, 1, func(call *ssa.Call) bool { _, ok := isModCall(call, "parser.NewlineIndex"); return ok }); ok && call.Call.Args[0] == ssa.Value(isl.Params[0]) {
-				if k, ok := constInt(b.Y); ok && k == 0 {
-					good = true
-				}
+			x, y, op := b.X, b.Y, b.Op
+			if _, xc := x.(*ssa.Const); xc {
+				x, y, op = y, x, flipOp(op)
+			}
+			call, ok := extractOf(x, 1, func(call *ssa.Call) bool { _, ok := isModCall(call, "parser.NewlineIndex"); return ok })
+			if !ok || call.Call.Args[0] != ssa.Value(isl.Params[0]) {
+				continue
+			}
+			// length == 0, length < 1, length <= 0 (the length is never negative)
+			if k, ok := constInt(y); ok && ((op == token.EQL && k == 0) || (op == token.LSS && k == 1) || (op == token.LEQ && k == 0)) {
+				good = true
 			}
 		}
 		c.check(good && len(returnsOf(isl)) == 1, "isSingleLine", P.pos(isl.Pos()), "isSingleLine(p) = NewlineIndex(p).length == 0", "isSingleLine is not NewlineIndex(p).length == 0")
@@ -375,7 +382,7 @@ func checkNewlineIndex(c *Ctx, ni, inc *ssa.Function) {
 	c.check(startOK && stepOK && len(stepBlocks) > 0, name+":scan-order", P.pos(ni.Pos()), "the scan starts at 0 and advances by one byte", "the scan does not start at 0 / advance by exactly one byte")
 	// the advance happens only on the false edge of isNewlineChar(s[index])
 	var test *ssa.Call
-	eachInstr(ni, func(in ssa.Instruction) {
+	eachInstrDeep(ni, func(in ssa.Instruction) {
 		call, ok := in.(*ssa.Call)
 		if !ok || call.Call.StaticCallee() != inc || inc == nil {
 			return
@@ -462,7 +469,7 @@ func newlineIndexLib(c *Ctx, ni *ssa.Function, part string) bool {
 	}
 	s := ni.Params[0]
 	var find *ssa.Call
-	eachInstr(ni, func(in ssa.Instruction) {
+	eachInstrDeep(ni, func(in ssa.Instruction) {
 		if call, ok := isStaticCall(in, "strings.IndexAny"); ok && call.Call.Args[0] == ssa.Value(s) {
 			find = call
 		}
